@@ -244,8 +244,10 @@ def run(tier, seed, replay=None):
                 out.append('name_printed_unquoted_unconfirmed')
         if re.search(r"\\'", s1) or re.search(r"\\\"", s1):
             out.append('string_quote_escape')
-        if re.match(r'SHOW ENGINE .* None\b', s1) or re.match(r'SHOW \w+ CODE$', s1) or re.match(r'SHOW ENGINE ', s1):
+        if re.match(r'SHOW ENGINE .* None\b', s1) or re.match(r'SHOW \S+ CODE$', s1) or re.match(r'SHOW ENGINE ', s1):
             out.append('show_printing')
+        if (re.search(r'[\t\n\r\\]', s) and re.search(r'\\[tnr\\]', s1)) or "'`" in s1:
+            out.append('command_parameter_printing')
         if (key[1] == 'tree differs' and 'alias=Identifier' in str(key) and ' AS `' in s1) or ' AS ``' in s1:
             out.append('quoted_alias_keeps_backquotes')
         return out
